@@ -14,8 +14,8 @@ import vlib
 from vlib import V
 import c20
 
-TIERS = {'quick': dict(fams=[('snippets', '')], cfgs='default,fs,od,esc,bt,bt+od,ma1', schedcfgs='default,bt', bound=1, maxexecs=120),
-         'thorough': dict(fams=[('snippets', ''), ('taint', 'k1d0')], cfgs='default,fs,od,esc,fs+od,bt,bt+od,ma1,ma2', schedcfgs='default,bt', bound=2, maxexecs=1000)}
+TIERS = {'quick': dict(fams=[('snippets', '')], cfgs='default,fs,od,esc,bt,bt+od,ma1,md8,md9,md10,md11,md12,md13,md14,md15,md16', schedcfgs='default,bt', bound=1, maxexecs=120),
+         'thorough': dict(fams=[('snippets', ''), ('taint', 'k1d0')], cfgs='default,fs,od,esc,fs+od,bt,bt+od,ma1,ma2,md8,md9,md10,md11,md12,md13,md14,md15,md16', schedcfgs='default,bt', bound=2, maxexecs=1000)}
 
 
 def main(tier):
